@@ -706,8 +706,26 @@ def rule_r4(chk, prog, rid='C05.R4'):
                 st.value) == f'pickle.loads({tpar}.exprs)' and isinstance(
                     st.targets[0], ast.Name):
             cache_var = st.targets[0].id
+    def applies_to_first_param(c):
+        """the callee (a function of the package) hands its first
+        parameter to apply_simp as the base"""
+        if not isinstance(c.func, (ast.Name, ast.Attribute)):
+            return False
+        try:
+            r = prog.resolve_expr(dm, c.func)
+        except Exception:
+            r = None
+        if not (r and r[0] == 'func'):
+            return False
+        g = r[1].funcs.get(r[2])
+        if g is None or not params_of(g):
+            return False
+        return any((call_name(x) or '').split('.')[-1] == 'apply_simp'
+                   and x.args and unparse(x.args[0]) == params_of(g)[0]
+                   for x in calls_in(g))
+
     simp_calls = [c for c in calls_in(w) if (call_name(c) or '').split(
-        '.')[-1] in ('_simp', 'apply_simp')]
+        '.')[-1] in ('_simp', 'apply_simp') or applies_to_first_param(c)]
     chk.floor(rid, '_simp calls in _worker', len(simp_calls), 1)
     for c in simp_calls:
         n = expr_owner_node(cfg, c)
